@@ -216,8 +216,8 @@ class Explorer:
         tr = Transition()
         tr.pre, tr.action, tr.exc, tr.msg, tr.mlabel = st.view, name, None, None, None
         kind = name.split(":", 1)[0]
-        if kind in ("d", "dm", "da", "early"):
-            die = {"dm": "mark", "da": "ack"}.get(kind)
+        if kind in ("d", "dm", "da", "dp", "early"):
+            die = {"dm": "mark", "da": "ack", "dp": "poll"}.get(kind)
             if die:
                 b["noack"] -= 1
             if kind == "early":
